@@ -10,6 +10,7 @@ REGISTRY = {
     "C07": "harness.c07_rtp",
     "C08": "harness.c08_sctp",
     "C10": "harness.c10_jitter",
+    "C11": "harness.c11_nackrtx",
     "C12": "harness.c12_router",
     "C13": "harness.c13_channel",
     "C14": "harness.c14_jsep",
